@@ -92,9 +92,12 @@ class W3Codec(base.Codec):
     # Postings
 
     def postings_writer(self, dbfile, byteids=False):
+        # Term vectors (byte ids) are addressed by their extent in the vector
+        # file, so they are never inlined into a terminfo
+        inlinelimit = 0 if byteids else self._inlinelimit
         return W3PostingsWriter(dbfile, blocklimit=self._blocklimit,
                                 byteids=byteids, compression=self._compression,
-                                inlinelimit=self._inlinelimit)
+                                inlinelimit=inlinelimit)
 
     def postings_reader(self, dbfile, terminfo, format_, term=None, scorer=None):
         if terminfo.is_inlined():
